@@ -110,12 +110,15 @@ def find_link_image(string, offset, delimiters, matches, root=None):
 
 
 def process_emphasis(string, stack_bottom, delimiters, matches):
-    star_bottom = stack_bottom
-    underscore_bottom = stack_bottom
+    # lower bounds for the opener search, one for each kind of closer: delimiter character,
+    # length of the closing run modulo 3, and whether the closer can also be an opener
+    # (everything the outcome of the search depends on).
+    openers_bottom = {}
     curr_pos = next_closer(stack_bottom, delimiters)
     while curr_pos is not None:
         closer = delimiters[curr_pos]
-        bottom = star_bottom if closer.type[0] == '*' else underscore_bottom
+        closer_kind = (closer.type[0], closer.origin_number % 3, closer.open)
+        bottom = openers_bottom.get(closer_kind, stack_bottom)
         open_pos = matching_opener(curr_pos, delimiters, bottom)
         if open_pos is not None:
             opener = delimiters[open_pos]
@@ -130,20 +133,22 @@ def process_emphasis(string, stack_bottom, delimiters, matches):
             del delimiters[open_pos + 1:curr_pos]
             curr_pos -= curr_pos - open_pos - 1
             # remove appropriate number of chars from delimiters
+            top = open_pos
             if not opener.remove(n, left=False):
                 delimiters.remove(opener)
                 curr_pos -= 1
+                top -= 1
             if not closer.remove(n, left=True):
                 delimiters.remove(closer)
                 curr_pos -= 1
             if curr_pos < 0:
                 curr_pos = 0
+            # bounds that pointed above the opener pointed at delimiters which are gone
+            for kind, bound in openers_bottom.items():
+                if bound is not None and bound > top:
+                    openers_bottom[kind] = top if top >= 0 else None
         else:
-            bottom = curr_pos - 1 if curr_pos > 1 else None
-            if closer.type[0] == '*':
-                star_bottom = bottom
-            else:
-                underscore_bottom = bottom
+            openers_bottom[closer_kind] = curr_pos - 1 if curr_pos > 0 else stack_bottom
             if not closer.open:
                 delimiters.remove(closer)
             else:
@@ -425,6 +430,7 @@ class Delimiter:
     def __init__(self, start, end, string):
         self.type = string[start:end]
         self.number = end - start
+        self.origin_number = self.number
         self.active = True
         self.start = start
         self.end = end
@@ -453,8 +459,9 @@ class Delimiter:
             # restrictions apply: the sum of the lengths of the delimiter runs
             # containing the opening and closing delimiters must not be a multiple of 3
             # unless both lengths are multiples of 3.
-            return ((self.number + other.number) % 3 != 0
-                    or (self.number % 3 == 0 and other.number % 3 == 0))
+            # (the lengths of the runs as written, not of what is left of them)
+            return ((self.origin_number + other.origin_number) % 3 != 0
+                    or (self.origin_number % 3 == 0 and other.origin_number % 3 == 0))
         return True
 
     def __repr__(self):
